@@ -47,13 +47,34 @@ package fsm
 //@   let T = s.Transitions
 //@   ensures sound: result ==> accepts(s, args, pc.RejectOptions)
 //@   ensures complete: !result ==> !accepts(s, args, pc.RejectOptions)
+//@   ensures fail-frame: !result ==> unchangedOldMaps(pc.Args)
+//@   ensures success-frame: result ==> frameOldMaps(pc.Args, pc.Opts)
+//@   ensures keys: result ==> forall k *container.Container ::
+//@       (((k in pc.Args) && !old(k in pc.Args)) || ((k in pc.Opts) && !old(k in pc.Opts))) ==> k != nil
 //@   loop 1 invariant listed: forall j int :: {matches[j]} 0 <= j && j < len(matches) ==> matches[j] != nil && allocated(matches[j]) &&
 //@       (exists i int :: 0 <= i && i < $k && matches[j].tr == T[i]) &&
 //@       mOK(matches[j].tr.Matcher, a1, r1) && matches[j].rem == mRem(matches[j].tr.Matcher, a1, r1) &&
 //@       matches[j].pc.RejectOptions == mRej(matches[j].tr.Matcher, r1) &&
 //@       matches[j].pc.Args != nil && matches[j].pc.Opts != nil && matches[j].pc.Args != matches[j].pc.Opts &&
-//@       fresh(matches[j].pc.Args) && fresh(matches[j].pc.Opts)
+//@       fresh(matches[j].pc.Args) && fresh(matches[j].pc.Opts) && allocated(matches[j].pc.Args) && allocated(matches[j].pc.Opts)
+//@   loop 1 invariant keys: forall j int, k *container.Container :: {matches[j], k in matches[j].pc.Args} {matches[j], k in matches[j].pc.Opts}
+//@       0 <= j && j < len(matches) && ((k in matches[j].pc.Args) || (k in matches[j].pc.Opts)) ==> k != nil
+//@   loop 1 invariant old-maps: unchangedOldMaps(pc.Args)
 //@   loop 1 invariant count: len(matches) == nmatch(T, $k, a1, r1)
 //@   loop 1 invariant all-tried: forall i int :: 0 <= i && i < $k && mOK(T[i].Matcher, a1, r1) ==>
 //@       0 <= nmatch(T, i, a1, r1) && nmatch(T, i, a1, r1) < len(matches) && matches[nmatch(T, i, a1, r1)].tr == T[i]
+//@   loop 2 invariant old-maps: unchangedOldMaps(pc.Args)
+//@   loop 2 invariant keys: forall j int, k *container.Container :: {matches[j], k in matches[j].pc.Args} {matches[j], k in matches[j].pc.Opts}
+//@       $k <= j && j < len(matches) && ((k in matches[j].pc.Args) || (k in matches[j].pc.Opts)) ==> k != nil
 //@   loop 2 invariant rejected: forall j int :: {matches[j]} 0 <= j && j < $k ==> !accepts(matches[j].tr.Next, matches[j].rem, matches[j].pc.RejectOptions)
+
+// --- Parse (C01, C07, C13): validation of one level's tokens ---------------------------------------------------------
+// containersWF: every container object carries a value (established by mkOpt/mkArg for the containers they create;
+// assumed here as a heap-wide data-structure invariant, see DESIGN.md assumption A-heapwf)
+//@ pure static func containersWF() bool = forall c *container.Container :: c != nil ==> c.Value != nil && ival(c.Value) != 0
+
+//@ func (*State).Parse
+//@   requires graph: graphWF() && containersWF() && s != nil
+//@   requires a-cb-disjoint: forall k *container.Container, j *container.Container :: k.ValueSetByUser == nil || k.ValueSetByUser != ival(j.Value)
+//@   ensures rejected: !accepts(s, args, false) ==> result != nil
+//@   ensures nil-only-if-accepted: result == nil ==> accepts(s, args, false)
